@@ -23,7 +23,7 @@ for fn in sorted(glob.glob(f'{root}/known_findings.src/*.jsonl')):
         key = f"{e['property']}|{e['clause']}|{json.dumps(e.get('features', {}), sort_keys=True)}"
         if e.get('status') == 'open' and e.get('what') not in still.get(e['property'], []):
             commit = extra.get(key)
-            if not commit:
+            if not commit and e['property'] not in ('C25', 'C26'):  # schedule dependent: statuses maintained by hand
                 for slug, c in fix_map.items():
                     if slug in e.get('what', '') or slug in json.dumps(e.get('witness', '')):
                         commit = c
